@@ -610,7 +610,7 @@ MANIFEST = {
         "(history_pure, history_call_k), hence every width / form factor / phase-space node of every call carries exactly the factor "
         "OBJECT, L and radius passed to that call (history_honours, fresh_covers: non-vacuous), and kernel-checked witnesses that "
         "the key 'qualified name' (two closures of one factory) breaks both (qualname_key_witness, qualname_key_dishonours). Tie: on "
-        "every run seeded histories (2 fixed + 2/10 random, 50/200 calls: all four classes, parametrize on/off, hat on/off, "
+        "every run seeded histories (2 fixed + 2/10 random, 50 / about 170 calls: all four classes, parametrize on/off, hat on/off, "
         "n, n_R in {1,2}(,3); factors = library classes, marker class, closures of one factory, lambdas of one scope, named functions, "
         "functools.partial, callable instances, bound methods, chew_mandelstam_s_wave; L / radius as numbers and as marker symbols incl. "
         "equal names with different assumptions) run in worker processes on the real code and on the Lean driver; skeletons compared "
